@@ -5,7 +5,6 @@ import numpy as np
 from .. import core, gen
 
 ID = 'C18'
-FOUNDATIONS = ['harness.foundation.concurrent', 'harness.foundation.soak']   # the property's own functions under concurrent calls (validation; proofs in C12)
 LEVEL = 'proof'
 RULE = ('corpus; structured random float64 arrays of 1-3 dimensions (axis lengths 1..24, integer-valued, ramps and '
         'random values) x orders 1-4 x six border modes x prefilter on/off x seven memory layouts; shifts per axis from '
